@@ -226,6 +226,21 @@ func init() {
 				c.Dist("name_related")
 			}
 		}
+		// (e) every ASCII character (and a few others) at every position of short templates: the character classes of
+		// the rules have neighbours in the code table ('[' .. '`' between the letter ranges, '/' and ':' around the
+		// digits, '{' after 'z') that a representative per class never visits
+		chars := []rune{}
+		for r := rune(0); r < 128; r++ {
+			chars = append(chars, r)
+		}
+		chars = append(chars, 0x80, 0xA0, 'é', 'ß', 0x2028, 0xFF3B, 0x1D504, 0xFFFD)
+		for _, r := range chars {
+			ch := string(r)
+			for _, t := range []string{"%s", "a%s", "%sa", "a%sa", "t:a%s", "t:%sa", "t:a%sb", "a%s:i", "%sa:i", "t:a%s#r", "t:i#a%s", "t:i#%sa", "a%s:*", "t%s:i#r"} {
+				items = append(items, c18Item{strings.Replace(t, "%s", ch, 1), "every-ascii"})
+				c.Dist("every_ascii")
+			}
+		}
 		c18Run(c, items)
 		c.Sample(map[string]any{"s": "a:a#a", "ValidateUserSet": validation.ValidateUserSet("a:a#a")})
 		c.Sample(map[string]any{"s": strings.Repeat("a", 255), "ValidateType": validation.ValidateType(strings.Repeat("a", 255))})
